@@ -1,6 +1,7 @@
 package main
 
 import (
+	"fmt"
 	"bytes"
 	"sort"
 	"strings"
@@ -41,12 +42,50 @@ func suiteConcurrent(c M) M {
 		progs = append(progs, unhex(h.(string)))
 	}
 	n := int(c["n"].(float64))
+	r := M{}
+	if c["cold"] == true {
+		// the very first parses / binds of this process happen concurrently (lazily initialised shared state shows here)
+		var wg0 sync.WaitGroup
+		for k := 0; k < 8; k++ {
+			wg0.Add(1)
+			go func(k int) {
+				defer wg0.Done()
+				src := progs[k%len(progs)]
+				interpret(src, "input", false, false, false)
+				var t1 Tunnel
+				bcl.Unmarshal([]byte("def tunnel \"x\" { host = \"h\"\n port = 1 }\nbind tunnel -> struct"), &t1, bcl.OptOutput(discard{}), bcl.OptLogger(discard{}))
+				var t2 []Other
+				bcl.Unmarshal([]byte("def other { solo = true }\nbind other:all -> slice"), &t2, bcl.OptOutput(discard{}), bcl.OptLogger(discard{}))
+			}(k)
+		}
+		wg0.Wait()
+	}
 	seq := make([]runObs, len(progs))
 	for i, src := range progs {
 		o := interpret(src, "input", false, false, false)
 		seq[i] = runObs{o.Out, o.Blocks, o.Binding, o.Err, o.Parts, o.Log}
 	}
-	r := M{}
+	// concurrent Unmarshal of independent inputs into independent targets
+	var wgu sync.WaitGroup
+	var umu sync.Mutex
+	udiff := 0
+	for k := 0; k < n; k++ {
+		wgu.Add(1)
+		go func(k int) {
+			defer wgu.Done()
+			var t1 Tunnel
+			e1 := bcl.Unmarshal([]byte(fmt.Sprintf("def tunnel \"x%d\" { host = \"h\"\n port = %d }\nbind tunnel -> struct", k, k)), &t1, bcl.OptOutput(discard{}), bcl.OptLogger(discard{}))
+			var t2 []Foo_Bar
+			e2 := bcl.Unmarshal([]byte("def foo_bar \"a\" { x_y = 3 }\ndef foo_bar { xy = 4 }\nbind foo_bar:all -> slice"), &t2, bcl.OptOutput(discard{}), bcl.OptLogger(discard{}))
+			if e1 != nil || e2 != nil || t1.Port != k || t1.Name != fmt.Sprintf("x%d", k) || len(t2) != 2 || t2[0].X_Y != 3 || t2[1].X_Y != 4 {
+				umu.Lock()
+				udiff++
+				umu.Unlock()
+			}
+		}(k)
+	}
+	wgu.Wait()
+	r["u_diff"] = udiff
 	// (a) independent calls
 	var wg sync.WaitGroup
 	diffA := 0
